@@ -3,6 +3,22 @@
 import json, os
 
 CHECKS = {
+ "C01": dict(level="model_checking", engine="E1-kani", design="DESIGN.md §8 (E1c) C01",
+   technique="Kani/CBMC over whole-function source slices: ParserState::validate_tokens against a symbolic table acceptor (try_push_byte stub), Matcher::try_consume_tokens and TokenParser::{consume_token, apply_token, compute_mask_inner} against stub collaborators; reference = commit the tokens one by one",
+   text="Validation / commit bookkeeping half only. For every 1-3 token sequence over a 4-token vocabulary with symbolic spellings, every 0-2 pending forced bytes and every table acceptor standing for try_push_byte, the real validate_tokens returns exactly the number of leading tokens that can be committed one by one (end-of-sequence counted exactly when nothing forced is pending and the state accepts); Matcher::try_consume_tokens commits exactly the validated prefix; a committed token appends exactly its bytes to the engine's and the parser's history; the mask carries the end-of-sequence bit whenever the state is accepting.",
+   note="NOT decided: the first sentence of C01 (the walk's mask equals what the Earley interpreter accepts on commit: speculative walk with row reuse vs definitive application), canonical-tokenisation narrowing, numeric special tokens. Stub contracts are listed in the evidence."),
+ "C11": dict(level="model_checking", engine="E1-kani", design="DESIGN.md §8 (E1c) C11",
+   technique="Kani/CBMC over whole-function source slices of ParserState::{compute_bias, rollback, ...} and Parser::invalidate_bias_cache in a mock parser state whose walk / flush / eos answers are a symbolic function of (lexer state, ghost row content, pending bytes); differential: mask (possibly cached) vs mask after invalidation",
+   text="Cache-protocol half. For every history of 0-2 definitive bytes, a mask, two operations out of {nothing, one more byte (same row or a new row), rollback(1), rollback(2)} and every stub answer table: the mask returned by the real compute_bias (cache lookup, walk, post-walk statements, cache update as in the current source) equals the mask it returns after the real invalidate_bias_cache(); a mask requested with a non-empty start neither reads nor writes the cache.",
+   note="The stub contract (what a mask may depend on; rows rebuilt after a rollback may differ under the same index) is part of the claim. Outside: that the real walk is such a function, the Earley row cache, a fresh engine replaying the tokens."),
+ "C12": dict(level="model_checking", engine="E1-kani", design="DESIGN.md §8 (E1c) C12",
+   technique="Kani/CBMC over whole-function source slices of TokenParser::{consume_token, apply_token, check_stop, rollback, ...} re-hosted on a stub Earley parser (byte stack with symbolic accept / accepting answers) and a 4-token trie with symbolic token lengths; one inductive step from an arbitrary consistent state",
+   text="TokenParser bookkeeping half. From any consistent state after 0-1 tokens, committing 1-2 tokens (each possibly end-of-sequence, either ending the sequence or consumed by the grammar as bytes; with or without the stop check) and rolling back as many restores token list, byte list, the parser's byte history, the token budget, the stop status and the per-state caches; rollback beyond the history or in a failed state is refused without effect.",
+   note="Outside: ParserState::rollback's truncation against the Earley tables (its mask-cache invalidation is decided under C11), captures, equality of all later behaviour. scan_eos()==true (EOS ending a stop=\"\" lexeme) is assumed away: the engine refuses rollback for such grammars."),
+ "C18": dict(level="model_checking", engine="E1-kani", design="DESIGN.md §8 (E1c) C18",
+   technique="Kani/CBMC over whole-function source slices of the three protocol layers (TokenParser, Matcher, Constraint) over stub collaborators with symbolic answers and call logs; Kani on StopController's valid_utf8_len",
+   text="Protocol half. TokenParser: once stopped nothing is accepted, validated or masked and nothing moves; check_stop stops exactly when accepting and (cannot advance or EOS committed) with the right reason; EOS in a non-accepting state is never dropped; the mask has the EOS bit whenever accepting and is never empty; out-of-range ids and the token budget fail as documented. Matcher: a failed call is permanent and later calls never reach the engine; consume/try_consume commit in order; compute_mask_or_eos after a stop yields exactly the EOS set. Constraint: stop result exactly when the engine stops, no mask / no commit reaches the engine after a stop, commit reports exactly the tokens committed. valid_utf8_len never splits a character.",
+   note="Outside: that the text IS complete when the parser says accepting (Earley run time), panic capture (catch_unwind), the stop controller's regex search (derivre behind a mutex)."),
  "C02": dict(level="model_checking", engine="E1-kani", design="DESIGN.md §2 C02",
    technique="bounded model checking (Kani/CBMC) of the real TokTrie::add_bias over trie tables dumped from the real builder, with a symbolic byte-stack acceptor; differential against byte-at-a-time masks on the single-byte vocabulary",
    text="For every transition-table acceptor with 2-3 states, the real add_bias on a multi-byte vocabulary puts a token in the mask exactly when a loop of real add_bias calls on the single-byte vocabulary allows each of its bytes in turn (duplicates, prefix tokens, tokens ending inside a UTF-8 character included). Decides the trie-layer half of the second sentence of C02 only.",
@@ -66,11 +82,7 @@ CHECKS = {
 }
 
 NOT_APPLICABLE = {
- "C01": "compares three traversals of the Earley/lexer interpreter (speculative trie walk with row reuse, definitive byte application, validation); putting Parser::new (derivre expression sets, hash-consing, Lark front end) under CBMC did not terminate even for the 4-word trie builder and an all-concrete one-rule grammar (DESIGN §1 probes). Its trie-walk mechanism is decided under C16/C02.",
- "C11": "mask caching is keyed on interpreter state (lexer_state, row_idx) and its soundness is a statement about engine histories; no part of it is a table or a kernel the solver can execute. (A stale-mask-after-rollback defect found by reading is described in DESIGN §5; a solver over the real code cannot reach it.)",
- "C12": "rollback truncates five parallel vectors inside ParserState/TokenParser; one inductive step of ParserState::rollback from a partially initialised state gave no result in 15 min under Kani, and 'equals an engine that never saw those tokens' needs the interpreter for the observables. Only token_len arithmetic is decided (C16).",
  "C14": "the quantifier is over thread schedules; Kani rejects concurrent code and CBMC's Rust path has no thread model; a hand-written model of the mutex protocol would not be the real code.",
- "C18": "stop/EOS/accepting consistency and the error protocol are sequences of interpreter calls; the stop controller drives a derivre automaton through a mutex. Its only solver-sized kernel, valid_utf8_len, is decided under C20.",
 }
 
 PENDING = []
